@@ -8,6 +8,7 @@ import (
 	"fmt"
 	"io/ioutil"
 	"os"
+	"path/filepath"
 	"strings"
 
 	"olverif/harness/apph"
@@ -224,6 +225,29 @@ func main() {
 			}
 		}
 		fmt.Fprintf(stdout, "ons: cases=%d nontrivial=%d disagreements=%d monitor=%v counters=%v\n", res.Evaluations, res.DistinctNontrivial, res.DisagreementCount, res.MonitorHitCount, res.Counters)
+	case "funcs":
+		fs := flag.NewFlagSet("funcs", flag.ExitOnError)
+		driver := fs.String("driver", "", "path to olpdriver (olpfuncs<group> is taken from the same directory)")
+		seed := fs.Uint64("seed", 1, "seed")
+		group := fs.String("group", "02", "02 | 09 | 15 | 20")
+		cases := fs.Int("cases", 4000, "calls")
+		out := fs.String("out", "", "result json")
+		fs.Parse(os.Args[2:])
+		stdout := apph.SilenceAppLogs()
+		exe := filepath.Join(filepath.Dir(*driver), "olpfuncs"+*group)
+		res, err := apph.RunFuncs(apph.FuncsOptions{Driver: exe, Group: *group, Seed: *seed, Cases: *cases})
+		apph.Cleanup()
+		if err != nil {
+			fmt.Fprintln(stdout, "olh funcs:", err)
+			os.Exit(2)
+		}
+		if *out != "" {
+			if err := kv.WriteResult(*out, res); err != nil {
+				fmt.Fprintln(stdout, err)
+				os.Exit(2)
+			}
+		}
+		fmt.Fprintf(stdout, "funcs%s: cases=%d distinct=%d disagreements=%d\n", *group, res.Evaluations, res.DistinctNontrivial, res.DisagreementCount)
 	case "bidm":
 		fs := flag.NewFlagSet("bidm", flag.ExitOnError)
 		driver := fs.String("driver", "", "path to olpdriver")
